@@ -146,7 +146,7 @@ Print Assumptions C17_rlimit_restored.
 Theorem C17_generator_closed_on_every_branch : forall (A B : Type) (ans : nat -> res A) (gexc : nat -> exc)
   (proj : nat -> A -> nat -> pout B * nat) budget cur st limit,
   running cur st -> gs (snd (evaluate_bounded ans gexc proj budget cur true st limit)) = Done.
-Proof. intros. apply generator_closed_on_every_branch; auto. Qed.
+Proof. exact generator_closed_every_generator. Qed.
 Print Assumptions C17_generator_closed_on_every_branch.
 
 (* ... so "all query variables are unbound again".  On the generator-frame machine of C03 (frames over the heap of
@@ -172,7 +172,7 @@ Print Assumptions C17_result_collected_so_far.
 (* evaluate_bounded nested inside a projection function leaves the limit of the outer call alone *)
 Theorem C17_nested_keeps_rlimit : forall (A A' B' : Type) (ans' : A -> nat -> res A') proj' budget cur' limit' k a r,
   cur' < r -> snd (@nested_projection A A' B' ans' proj' budget cur' limit' k a r) = r.
-Proof. intros A A' B'. exact (@nested_keeps_rlimit A A' B'). Qed.
+Proof. exact nested_keeps_rlimit_all. Qed.
 Print Assumptions C17_nested_keeps_rlimit.
 
 (* non-vacuity: nat(z). nat(s(X)) :- nat(X).  The query nat(X) has infinitely many answers; at depth 3
